@@ -179,7 +179,7 @@ func (p *Prog) encLayout(fn *ssa.Function) []wireSlot {
 					src = "expr"
 				}
 			}
-			out = append(out, wireSlot{src, offsetOf(x.Call.Args[1]), widthOf(name), endian, condLabel(in), p.InstrPos(in)})
+			out = append(out, wireSlot{src, normOffset(x.Call.Args[1], in), widthOf(name), endian, condLabel(in), p.InstrPos(in)})
 		case *ssa.Store:
 			ia, ok := x.Addr.(*ssa.IndexAddr)
 			if !ok {
@@ -192,7 +192,7 @@ func (p *Prog) encLayout(fn *ssa.Function) []wireSlot {
 			if src == "" {
 				return
 			}
-			out = append(out, wireSlot{src, offsetExpr(ia.Index), 1, "byte", "", p.InstrPos(in)})
+			out = append(out, wireSlot{src, normIndex(ia.Index, in), 1, "byte", "", p.InstrPos(in)})
 		}
 	})
 	return out
@@ -218,7 +218,7 @@ func (p *Prog) decLayout(fn *ssa.Function) []wireSlot {
 					for _, r := range allReturns(sc) {
 						if inner, ok := unconv(retResults(r)[0]).(*ssa.Call); ok {
 							if name, endian, ok := binaryCall(&inner.Call); ok && strings.HasPrefix(name, "Uint") && unconv(inner.Call.Args[1]) == ssa.Value(sc.Params[0]) {
-								out = append(out, wireSlot{dst, offsetOf(call.Call.Args[0]), widthOf(name), endian, condLabel(in), p.InstrPos(in)})
+								out = append(out, wireSlot{dst, normOffset(call.Call.Args[0], in), widthOf(name), endian, condLabel(in), p.InstrPos(in)})
 							}
 						}
 					}
@@ -230,13 +230,13 @@ func (p *Prog) decLayout(fn *ssa.Function) []wireSlot {
 		case *ssa.Call:
 			name, endian, ok := binaryCall(&x.Call)
 			if ok && strings.HasPrefix(name, "Uint") {
-				out = append(out, wireSlot{dst, offsetOf(x.Call.Args[1]), widthOf(name), endian, condLabel(in), p.InstrPos(in)})
+				out = append(out, wireSlot{dst, normOffset(x.Call.Args[1], in), widthOf(name), endian, condLabel(in), p.InstrPos(in)})
 			}
 		case *ssa.UnOp:
 			if x.Op == token.MUL {
 				if ia, ok := x.X.(*ssa.IndexAddr); ok {
 					if bt, ok := x.Type().Underlying().(*types.Basic); ok && (bt.Kind() == types.Uint8) {
-						out = append(out, wireSlot{dst, offsetExpr(ia.Index), 1, "byte", "", p.InstrPos(in)})
+						out = append(out, wireSlot{dst, normIndex(ia.Index, in), 1, "byte", "", p.InstrPos(in)})
 					}
 				}
 			}
